@@ -38,3 +38,11 @@ if _HAVE_A:
                         "Backend.C03_fuel_never_exhausted", "Backend.C03_pollFuelOK", "Backend.C03_read_fuel_exhaustible",
                         "Backend.C03_read_fuel_exhaustible_populate"]
     MODULES["C03"] += ["QuillModel.Props.C03Whole", "QuillModel.Props.C03ReadFuel"]
+# lift round 2 (w2_lifts): C03 — the pop-time decision is the FINAL state's decision when no sink level changes later
+# (Props/C03Final.lean; helpers Backend/LiftOnceFinal{Skel,Cfg,}.lean: restricted skeleton ClosedOn / runOps_closedOn)
+if _HAVE_A:
+    THEOREMS["C03"] += ["Backend.C03_runOps_sink_lvl", "Backend.C03_noWriteFault_run", "Backend.C03_whole_run_count_cfg",
+                        "Backend.C03_final_acceptance", "Backend.C03_final_acceptance_suffix", "Backend.C03_unpopped_not_popped",
+                        "Backend.C03_exactly_once_final_decision", "Backend.C03_final_count_nodup",
+                        "Backend.PA.runOps_closedOn", "Backend.PA.WInvS.closedOn"]
+    MODULES["C03"] += ["QuillModel.Props.C03Final"]
